@@ -179,6 +179,44 @@ def run(ctx):
                 doc = json.loads(out.get_buffer())
                 if [doc.get('enc'), doc.get('aut')] != [wc, wa]:
                     fail('ssh1_json_lists', {'cmask': cmask, 'amask': amask}, [doc.get('enc'), doc.get('aut')], [wc, wa])
+    # whole audits through main() (handshake, host-key and group-exchange probes, report): the names listed are still exactly the ones advertised —
+    # the probe phase re-uses the parsed lists when it builds its own KEXINITs and must not change them
+    for k in range(ctx.scale(25, 400)):
+        wl = gen_wire_lists(r)
+        wl[0] = [b'curve25519-sha256'] + [n for n in wl[0] if n != b'curve25519-sha256'][:4] + ([b'diffie-hellman-group-exchange-sha256'] if k % 3 == 0 else [])
+        wl[1] = [b'ssh-ed25519', b'rsa-sha2-512'] + [n for n in wl[1] if n not in (b'ssh-ed25519', b'rsa-sha2-512')][:3]
+        for i_ in (2, 3, 4, 5):          # 'none' and other names a cautious client would not offer, in every direction
+            wl[i_] = list(wl[i_]) + ([b'none'] if k % 2 == 0 else []) + ([b'3des-cbc', b'arcfour'] if i_ < 4 and k % 4 == 0 else [])
+        payload = pg.kexinit_bytes(wl)
+        adv = pg.independent_kexinit_reader(payload)
+        dec = [[n.decode('utf-8', 'replace') for n in l] for l in adv]
+        want = {'kex': dec[0], 'key': dec[1], 'enc': dec[3], 'mac': dec[5]}
+        srv = fakenet.Server(banner=b'SSH-2.0-OpenSSH_8.0', kexinit_payload=b'\x14' + payload, hostkeys={'ssh-ed25519': fakenet.ed25519_blob(), 'rsa-sha2-512': fakenet.rsa_blob(3072)},
+                             gex=lambda a, b_, c: 3072 if c >= 3072 else None)
+        for extra in ([], ['-j']):
+            net = fakenet.FakeNet({'10.1.0.1': srv})
+            code, text = fakenet.run_main(['-n', '--skip-rate-test'] + extra + ['10.1.0.1'], net)
+            cov.add(('e2e', payload, tuple(extra)), True, tags=['whole-audit', 'json' if extra else 'text'])
+            inp = {'kexinit_payload_hex': payload.hex(), 'whole_audit': True, 'args': extra}
+            if extra:
+                try:
+                    doc = json.loads(text)
+                    got = {c: [e['algorithm'] for e in doc[c]] for c in rc.CATS}
+                except Exception:
+                    got = None
+                exp = want
+            else:
+                got = {c: [] for c in rc.CATS}
+                for line in text.split('\n'):
+                    for c in rc.CATS:
+                        if line.startswith('(%s) ' % c) and not line.startswith('(%s) `- ' % c):
+                            got[c].append(line[6:].split(' -- ')[0].rstrip(' ').split(' (')[0])
+                exp = {c: [n for n in want[c] if n.strip() != ''] for c in rc.CATS}
+            if len(net.connects) < 2:
+                raise RuntimeError('C01 whole-audit stage: no probe connection was made')
+            if got != exp:
+                bad = [c for c in rc.CATS if got is None or got[c] != exp[c]]
+                fail('whole_audit_names_differ', inp, {c: (got or {}).get(c) for c in bad[:2]}, {c: exp[c] for c in bad[:2]})
     mm = ctx.driver(ml) if ctx.driver_ok else []
     for line, m, ex in zip(ml, mm, mexp):
         if m.get('ok') != ex:
@@ -200,6 +238,19 @@ def replay(obj):
         from common import rerun_for_signature
         return rerun_for_signature(sys.modules[__name__], f)
     payload = bytes.fromhex(inp['kexinit_payload_hex'])
+    if inp.get('whole_audit'):
+        import fakenet
+        adv = pg.independent_kexinit_reader(payload)
+        dec = [[n.decode('utf-8', 'replace') for n in l] for l in adv]
+        want = {'kex': dec[0], 'key': dec[1], 'enc': dec[3], 'mac': dec[5]}
+        srv = fakenet.Server(banner=b'SSH-2.0-OpenSSH_8.0', kexinit_payload=b'\x14' + payload, hostkeys={'ssh-ed25519': fakenet.ed25519_blob(), 'rsa-sha2-512': fakenet.rsa_blob(3072)},
+                             gex=lambda a, b_, c: 3072 if c >= 3072 else None)
+        code, text = fakenet.run_main(['-n', '--skip-rate-test', '-j', '10.1.0.1'], fakenet.FakeNet({'10.1.0.1': srv}))
+        doc = json.loads(text)
+        got = {c: [e['algorithm'] for e in doc[c]] for c in rc.CATS}
+        for c in rc.CATS:
+            print(c, 'advertised', want[c][:12], 'reported', got[c][:12])
+        return 1 if got != want else 0
     adv = pg.independent_kexinit_reader(payload)
     dec = [[n.decode('utf-8', 'replace') for n in l] for l in adv]
     want = {'kex': dec[0], 'key': dec[1], 'enc': dec[3], 'mac': dec[5]}
